@@ -26,7 +26,7 @@ func main() {
 	twin.Rekey = rekey
 	twin.RunAll(r, nil, func(c twin.Case, n, i twin.Obs) string { return c.Name }, opt, par.Opts{})
 	r.Set("exhaustive", true)
-	r.Set("rule", "full product: defer stacks (<=2 of 19 kinds) x 13 endings (explicit panics of 4 value types + 8 run-time faults + return) x main recovers or not, at call depth 2; depth 3 with the stacks split over f and g; family R: one or two of 8 defer kinds repeated at 3 depths of a recursion x all endings; after every program Eval(\"after(20)\") must still work; non-trivial = output lines not all equal")
+	r.Set("rule", "full product: defer stacks (<=2 of 25 kinds: literals, named functions, methods, method values, builtins, defers registered in loops; plus 5 kinds of declared functions / methods / function values that call recover() directly, paired with the 8 core kinds) x 13 endings (explicit panics of 4 value types + 8 run-time faults + return) x main recovers or not, at call depth 2; depth 3 with the stacks split over f and g; family R: one or two of 8 defer kinds repeated at 3 depths of a recursion x all endings; after every program Eval(\"after(20)\") must still work; non-trivial = output lines not all equal")
 	r.Finish()
 }
 
